@@ -152,6 +152,7 @@ class EncEngine(Engine):
     """shared case handling: header = kind-specific tokens + EV + all `d` ops; shrinkable ops = field
     ops, one pseudo-op per message character (m <hex>), and (pattern) per pattern character (p <hex>)"""
     exe = "json"
+    mem_gb = 6        # a defective padding path may try to allocate 2^31 bytes per case
     nhdr = 0          # kind-specific leading tokens
     msg_at = 5        # index of msg inside EV
 
